@@ -112,24 +112,43 @@ CLAIMED = {
 
 PENDING = {}
 
-# properties whose model rests on table-shaped Rust functions that translate.py regenerates into Lean
-# on every run (DESIGN.md §13); must match TIE_TOPICS in ./check
-TIE = {
-    "C01": "frame.rs encoder (checksum, payload, to_bytes, to_bytes_with_newline compiled statement by statement; Data::try_new bound and the regular expression text as templates)",
-    "C02": "frame.rs: the decoder after the regular expression (length test, Data::try_new, checksum test and their errors, compiled statement by statement) and the regular expression text (template)",
-    "C03": "frame.rs: the decoder after the regular expression (length test, Data::try_new, checksum test and their errors, compiled statement by statement) and the regular expression text (template)",
-    "C06": "every method of impl Page (page.rs) compiled statement by statement",
-    "C07": "every method of impl Page (page.rs) compiled statement by statement",
-    "C04": "message.rs code tables (both directions)", "C05": "message.rs code tables (both directions)",
-    "C19": "sign_type.rs from_bytes / dimensions / to_bytes tables and the virtual sign's configuration digest",
-    "C16": "response_expected", "C18": "delay_after_send / delay_after_receive", "C20": "configure_port setters and the two constructor timeouts",
-    "C12": "VirtualSign dispatch and per-handler state tables",
-    "C13": "VirtualSign dispatch and per-handler state tables, and every method of impl VirtualSign compiled statement by statement into a state-passing function (processMessage = vstep, bus loop = busStep)",
-    "C14": "VirtualSign dispatch and per-handler state tables",
-    "C09": "the controller (src/sign.rs compiled statement by statement into an interaction tree)",
-    "C10": "the controller (src/sign.rs compiled statement by statement into an interaction tree)",
-    "C11": "the controller (src/sign.rs compiled statement by statement into an interaction tree)",
+# what each translated topic (DESIGN.md §13) re-translates from /repo on every run; a property carries the topics of
+# the source files it is anchored in — the same derivation as TIE_TOPICS in ./check
+TOPIC_TEXT = {
+    "Core": "page.rs (every method of impl Page) and frame.rs (checksum, payload, to_bytes, to_bytes_with_newline, the decoder after the regular expression; Data::try_new bound and the regular expression text as templates) compiled statement by statement",
+    "FrameIo": "Frame::read / Frame::write recognised as wholes (BufReader capacity, read_until delimiter, write_all of the encoding with newline)",
+    "Message": "message.rs code tables (both directions)",
+    "SignType": "sign_type.rs from_bytes / dimensions / to_bytes tables",
+    "Controller": "the controller (src/sign.rs compiled statement by statement into an interaction tree)",
+    "VSign": "VirtualSign dispatch and per-handler state tables and the configuration digest",
+    "VSignFull": "every method of impl VirtualSign compiled statement by statement into a state-passing function (processMessage = vstep, bus loop = busStep)",
+    "Serial": "response_expected, delay_after_send / delay_after_receive, configure_port setters and the two constructor timeouts",
+    "SerialBus": "SerialSignBus::process_message and Odk::process_message compiled statement by statement (= the model's serialStep / odkStep)",
 }
+FILE_TOPICS = {
+    "libs/core/src/frame.rs": ["Core", "FrameIo"],
+    "libs/core/src/message.rs": ["Message"],
+    "libs/core/src/page.rs": ["Core"],
+    "libs/core/src/sign_type.rs": ["SignType"],
+    "src/sign.rs": ["Controller"],
+    "libs/testing/src/virtual_sign_bus.rs": ["VSign"],
+    "libs/serial/src/serial_sign_bus.rs": ["Serial", "SerialBus"],
+    "libs/serial/src/serial_port.rs": ["Serial"],
+    "libs/testing/src/odk.rs": ["Serial", "SerialBus"],
+}
+EXTRA_TOPICS = {"C13": ["VSignFull"]}
+
+
+def tie_text(prop):
+    ts = []
+    for f in prop["anchors"]["files"]:
+        for t in FILE_TOPICS.get(f, []):
+            if t not in ts:
+                ts.append(t)
+    for t in EXTRA_TOPICS.get(prop["id"], []):
+        if t not in ts:
+            ts.append(t)
+    return "; ".join("%s: %s" % (t, TOPIC_TEXT[t]) for t in ts)
 
 
 def main():
@@ -140,8 +159,9 @@ def main():
         pid = p["id"]
         if pid in CLAIMED:
             tech, text, note, ref = CLAIMED[pid]
-            if pid in TIE:
-                tech += "; static tie: %s re-translated from /repo into lean/Flipdot/Generated on every run and proved equal to the model on the whole domain (lean/Flipdot/Tie)" % TIE[pid]
+            tt = tie_text(p)
+            if tt:
+                tech += "; static tie (topics of the anchored source files) — %s — re-translated from /repo into lean/Flipdot/Generated on every run and proved equal to the model on the whole domain (lean/Flipdot/Tie)" % tt
                 note += " Static tie (DESIGN.md §13): when translate.py does not recognise the shape of the source the topic is reported as unavailable in the evidence and the differential correspondence alone ties that part."
             checks.append({
                 "property_id": pid,
